@@ -55,6 +55,10 @@ RowOK(r) ==
     [] r.op = "int"   -> r.r = r.a[1]                      \* int(x) is the canonical representative
     [] r.op = "one"   -> r.r = One(F)
     [] r.op = "zero"  -> r.r = Zero(F)
+    \* augmented assignment on an ALIAS (y = x; y op= b): y is the result, and x (r.x) still is what it was
+    [] r.op = "augadd" -> r.r = Add(F, r.a, r.b) /\ r.x = r.a
+    [] r.op = "augsub" -> r.r = Sub(F, r.a, r.b) /\ r.x = r.a
+    [] r.op = "augmul" -> r.r = Mul(F, r.a, r.b) /\ r.x = r.a
     [] r.op = "ctor"  -> r.r = OfInt(F, r.k)      \* FQ(k) for any int k
     [] r.op = "ctorv" -> r.r = [j \in 1..F.d |-> r.a[j] % F.p]   \* FQP(list of ints)
     [] OTHER -> FALSE
